@@ -19,7 +19,7 @@ import (
 func TestVerifC16(t *testing.T) {
 	vfMain(t, vfCheck{
 		ID: "C16", Level: "exploration",
-		Rule:        "os-backed server: real directories of each size in the tier's size list (quick: around the 128-entry batch edges up to 300; thorough: every size 0..300) with awkward names; request server: MaxFilelist in {1,2,3,7,(100)} x every size 0..2*batch+3 x lister behaviours {EOF with the last entries, EOF on the following call, short batches with nil error, listers that emit . and ..} x name sets. Oracle: multiset equality of (name,size,mode,mtime) against the directory / the lister's entries, READDIR round trips bounded, no stuck state. A class is (server, batch, size, behaviour).",
+		Rule:        "os-backed server: real directories of each size in the tier's size list (quick: around the 128-entry batch edges up to 300; thorough: every size 0..300) with awkward names (spaces, newlines, non-UTF-8, hidden, and directories in which every name has 150-250 bytes so that one batch exceeds 32 KiB); request server: MaxFilelist in {1,2,3,7,(100)} x every size 0..2*batch+3 x lister behaviours {EOF with the last entries, EOF on the following call, short batches with nil error, listers that emit . and ..} x name sets. Oracle: multiset equality of (name,size,mode,mtime) against the directory / the lister's entries, READDIR round trips bounded, no stuck state. A class is (server, batch, size, behaviour).",
 		Assumptions: []string{"entry names are non-empty and contain no '/' (the client applies path.Base)", "listers make progress (a lister returning (0,nil) forever is outside the ListerAt contract)", "MaxFilelist is a package-level variable, changed only between sessions"},
 		Units: func(tier vfTier, seed uint64) int {
 			if tier == vfThorough {
@@ -106,6 +106,9 @@ func c16Names(r *vfRand, n int, style int) []string {
 			s = fmt.Sprintf("%0255d", len(out))
 		case style == 2:
 			s = fmt.Sprintf(".hidden%d", len(out))
+		case style == 3:
+			// every name long: one 128-entry batch marshals to far more than 32 KiB
+			s = fmt.Sprintf("%0*d", 150+len(out)%100, len(out))
 		default:
 			s = fmt.Sprintf("f%04d", len(out))
 		}
@@ -216,11 +219,22 @@ func c16OS(u *vfUnit, part, parts int) {
 			u.Inconclusive("connect: %v", err)
 			return
 		}
-		for i, n := range sizes {
+		type dcase struct{ n, style int }
+		var dcases []dcase
+		for _, n := range sizes {
+			dcases = append(dcases, dcase{n, (n + part) % 3})
+		}
+		for _, n := range []int{40, 128, 129, 300} {
+			dcases = append(dcases, dcase{n, 3})
+		}
+		for i, dc := range dcases {
 			if i%parts != part {
 				continue
 			}
-			style := (n + part) % 3
+			n, style := dc.n, dc.style
+			if style == 3 {
+				u.Count("os_listings_long_names", 1)
+			}
 			dir := filepath.Join(base, fmt.Sprintf("d%d-%v", n, alloc))
 			os.Mkdir(dir, 0o755)
 			names := c16Names(u.Rng, n, style)
